@@ -432,6 +432,10 @@ def run(ctx):
     r8_engineio_ordered(ctx)
     ctx.rule('C02.R9', 'msgpack schema agreement', floor=5)
     r9_msgpack(ctx)
+    ctx.rule('C02.R11', 'encoding is non-destructive: the codec never '
+             'modifies the payload object it is given', floor=6)
+    from .c01 import r2b_non_destructive
+    r2b_non_destructive(ctx, rid='C02.R11')
     ctx.rule('C02.R10', 'no swapped arguments at resolved in-package calls',
              floor=1)
     r10_swapped(ctx)
